@@ -138,6 +138,8 @@ EscWellFormed(toks, surr) ==
   IF toks = <<>> THEN TRUE
   ELSE LET h == Head(toks) IN
        IF h[1] = 0 THEN h[2] < 128 /\ EscWellFormed(Tail(toks), surr)
+       \* [2, v]: an escape in another notation (\uXXXX, \xHH, ...) - never for a non-ASCII code point
+       ELSE IF h[1] = 2 THEN h[2] < 128 /\ EscWellFormed(Tail(toks), surr)
        ELSE IF IsHigh(h[2])
             THEN /\ surr
                  /\ Len(toks) >= 2 /\ toks[2][1] = 1 /\ IsLow(toks[2][2])
